@@ -134,8 +134,28 @@ def len_clause(node, name):
     return None
 
 
+PROJECT_CLASSES: set[str] = set()    # classes defined in the module being translated (set by extract_class)
+
+
+def is_not_project_instance(node, name) -> bool:
+    """`not isinstance(x, C)` with C a class defined in the same module (WavelengthHandling ...): no value of the
+    modelled domain (None, numbers, NaN, +-inf, sequences) is an instance of it, so the conjunct is True on the domain"""
+    if isinstance(node, ast.UnaryOp) and isinstance(node.op, ast.Not):
+        c = node.operand
+        return (isinstance(c, ast.Call) and isinstance(c.func, ast.Name) and c.func.id == "isinstance"
+                and len(c.args) == 2 and isinstance(c.args[0], ast.Name) and c.args[0].id == name
+                and isinstance(c.args[1], ast.Name) and c.args[1].id in PROJECT_CLASSES)
+    return False
+
+
 def presence_kind(node, name):
-    """x is not None -> PNotNone ; x -> PTruthy ; isinstance(x, int | float) -> PIsNumber ; else None"""
+    """x is not None -> PNotNone ; x -> PTruthy ; isinstance(x, int | float) -> PIsNumber ; else None
+    (`<presence> and not isinstance(x, <class of this module>)` counts as <presence>)"""
+    if isinstance(node, ast.BoolOp) and isinstance(node.op, ast.And):
+        rest = [v for v in node.values if not is_not_project_instance(v, name)]
+        if len(rest) == 1 and len(rest) < len(node.values):
+            return presence_kind(rest[0], name)
+        return None
     if (isinstance(node, ast.Compare) and len(node.ops) == 1 and isinstance(node.ops[0], ast.IsNot)
             and isinstance(node.left, ast.Name) and node.left.id == name
             and isinstance(node.comparators[0], ast.Constant) and node.comparators[0].value is None):
@@ -158,6 +178,18 @@ def raise_condition(node, name):
     if isinstance(node, ast.UnaryOp) and isinstance(node.op, ast.Not) and isinstance(node.operand, ast.Compare):
         at = chain_atoms(node.operand, name)
         return ("RaiseUnlessAll", at) if at else None
+    if (isinstance(node, ast.UnaryOp) and isinstance(node.op, ast.Not) and isinstance(node.operand, ast.BoolOp)
+            and isinstance(node.operand.op, ast.And)):
+        # not (np.min(x) >= lo and np.max(x) <= hi)
+        ats = []
+        for v in node.operand.values:
+            if not isinstance(v, ast.Compare):
+                return None
+            at = chain_atoms(v, name)
+            if not at:
+                return None
+            ats += at
+        return ("RaiseUnlessAll", ats)
     if isinstance(node, ast.Compare) and len(node.ops) == 1:
         at = chain_atoms(node, name)
         return ("RaiseIfAny", at) if at else None
@@ -236,6 +268,7 @@ def handle_if(st: ast.If, names, acc, ctx):
             fail(st, "unsupported range check")
         if not only_raises(st.body) or st.orelse:
             fail(st, "a range check must be `if ...: raise ...` without else")
+        pres = [q for q in pres if not (len(pres) > 1 and is_not_project_instance(q, n))]
         if len(pres) > 1:
             fail(st, "more than one precondition")
         if pres:
@@ -323,6 +356,8 @@ def class_node(tree, name) -> ast.ClassDef:
 def extract_class(repo: Path, rel: str, cname: str):
     tree = parse(repo, rel)
     cn = class_node(tree, cname)
+    PROJECT_CLASSES.clear()
+    PROJECT_CLASSES.update(n.name for n in tree.body if isinstance(n, ast.ClassDef))
     init = find_func(tree, "__init__", cname)
     if init.args.vararg or init.args.kwarg or init.args.posonlyargs:
         fail(init, "constructor signature")
@@ -535,6 +570,170 @@ def extract_configuration(repo: Path):
     return checks1 + checks2, [k for k, _ in modes], [k for k, _ in dets]
 
 
+
+# ------------------------------------------------------------------------------------------ Readout.replace
+
+
+def _self_attr_of_key(node, key) -> bool:
+    """self._key or self.key"""
+    return (isinstance(node, ast.Attribute) and isinstance(node.value, ast.Name) and node.value.id == "self"
+            and node.attr in (key, "_" + key))
+
+
+def _is_changes(node, kw) -> bool:
+    return isinstance(node, ast.Name) and node.id == kw
+
+
+def _readout_ctor(node) -> bool:
+    """Readout(...) | type(self)(...) | self.__class__(...)"""
+    return isinstance(node, ast.Call) and ast.unparse(node.func) in ("Readout", "type(self)", "self.__class__")
+
+
+def extract_readout(repo: Path):
+    """(constructor parameters of Readout, the settings Readout.replace carries over to the new object).
+
+    accepted bodies of replace(self, **changes):
+      A  d = {"k": self._k, ...} ; [m = {**d, **changes} | m = d | changes | d.update(changes)] ;
+         return Readout(**m)  (also Readout(**{**d, **changes}), type(self)(...), self.__class__(...))
+      B  return Readout(k=changes.get("k", self._k), ...)
+    `changes` must override the stored values; every value must be the attribute of the same name."""
+    tree = parse(repo, "pyxel/exposure/readout.py")
+    init = find_func(tree, "__init__", "Readout")
+    if init.args.vararg or init.args.kwarg or init.args.posonlyargs:
+        fail(init, "Readout constructor signature")
+    params = [a.arg for a in init.args.args[1:]] + [a.arg for a in init.args.kwonlyargs]
+    rep = find_func(tree, "replace", "Readout")
+    if rep.args.kwarg is None or rep.args.vararg or len(rep.args.args) != 1 or rep.args.kwonlyargs:
+        fail(rep, "Readout.replace signature (expected (self, **changes))")
+    kw = rep.args.kwarg.arg
+    dicts: dict[str, list[str]] = {}     # name -> keys it holds from self
+    merged: set[str] = set()             # names into which `changes` has been merged (changes last)
+
+    def dict_keys(node):
+        """{"k": self._k, ...} -> [k, ...]"""
+        if not isinstance(node, ast.Dict) or any(k is None for k in node.keys):
+            return None
+        keys = []
+        for k, v in zip(node.keys, node.values):
+            if not (isinstance(k, ast.Constant) and isinstance(k.value, str)):
+                return None
+            if not _self_attr_of_key(v, k.value):
+                fail(v, f"Readout.replace: the value carried for {k.value!r} is not the attribute of that name")
+            keys.append(k.value)
+        return keys
+
+    def merge_expr(node):
+        """{**d, **changes} | d | changes | dict(d, **changes)  -> keys of d (changes override)"""
+        if isinstance(node, ast.Dict) and len(node.keys) == 2 and node.keys == [None, None]:
+            a, b = node.values
+            if _is_changes(b, kw):
+                if isinstance(a, ast.Name) and a.id in dicts:
+                    return dicts[a.id]
+                return dict_keys(a)
+            if _is_changes(a, kw):
+                fail(node, "Readout.replace: the stored values override the requested changes")
+        if isinstance(node, ast.BinOp) and isinstance(node.op, ast.BitOr) and _is_changes(node.right, kw):
+            if isinstance(node.left, ast.Name) and node.left.id in dicts:
+                return dicts[node.left.id]
+            return dict_keys(node.left)
+        if (isinstance(node, ast.Call) and isinstance(node.func, ast.Name) and node.func.id == "dict"
+                and len(node.args) == 1 and isinstance(node.args[0], ast.Name) and node.args[0].id in dicts
+                and len(node.keywords) == 1 and node.keywords[0].arg is None and _is_changes(node.keywords[0].value, kw)):
+            return dicts[node.args[0].id]
+        return None
+
+    carried = None
+    for st in body_no_doc(rep):
+        nm, val = assigned(st)
+        if nm is not None:
+            ks = dict_keys(val)
+            if ks is not None:
+                dicts[nm] = ks
+                merged.discard(nm)
+                continue
+            ks = merge_expr(val)
+            if ks is not None:
+                dicts[nm] = ks
+                merged.add(nm)
+                continue
+            fail(st, "Readout.replace: unsupported assignment")
+        if (isinstance(st, ast.Expr) and isinstance(st.value, ast.Call) and isinstance(st.value.func, ast.Attribute)
+                and st.value.func.attr == "update" and isinstance(st.value.func.value, ast.Name)
+                and st.value.func.value.id in dicts and len(st.value.args) == 1 and not st.value.keywords
+                and _is_changes(st.value.args[0], kw)):
+            merged.add(st.value.func.value.id)
+            continue
+        if isinstance(st, ast.Return) and _readout_ctor(st.value):
+            call = st.value
+            if call.args:
+                fail(st, "Readout.replace: positional arguments")
+            if len(call.keywords) == 1 and call.keywords[0].arg is None:
+                v = call.keywords[0].value
+                if isinstance(v, ast.Name) and v.id in dicts and v.id in merged:
+                    carried = dicts[v.id]
+                else:
+                    carried = merge_expr(v)
+                if carried is None:
+                    fail(st, "Readout.replace: the constructor arguments are not <stored settings> overridden by **changes")
+            elif call.keywords and all(k.arg is not None for k in call.keywords):
+                carried = []
+                for k in call.keywords:
+                    v = k.value
+                    okv = (isinstance(v, ast.Call) and isinstance(v.func, ast.Attribute) and v.func.attr == "get"
+                           and _is_changes(v.func.value, kw) and len(v.args) == 2 and not v.keywords
+                           and isinstance(v.args[0], ast.Constant) and v.args[0].value == k.arg
+                           and _self_attr_of_key(v.args[1], k.arg))
+                    if not okv:
+                        fail(v, f"Readout.replace: argument {k.arg!r} is not changes.get({k.arg!r}, self._{k.arg})")
+                    carried.append(k.arg)
+            else:
+                fail(st, "Readout.replace: unsupported constructor call")
+            break
+        fail(st, "Readout.replace: unsupported statement")
+    if carried is None:
+        fail(rep, "Readout.replace: no `return Readout(...)` found")
+    return params, carried
+
+
+
+# ------------------------------------------------------------------------------------------ constructor parameters
+
+# every class an object of which pyxel.load builds from the document
+REACHABLE = [
+    ("Exposure", "pyxel/exposure/exposure.py"), ("Readout", "pyxel/exposure/readout.py"),
+    ("Observation", "pyxel/observation/observation.py"), ("ParameterValues", "pyxel/observation/parameter_values.py"),
+    ("Calibration", "pyxel/calibration/calibration.py"), ("Algorithm", "pyxel/calibration/algorithm.py"),
+    ("ExposureOutputs", "pyxel/outputs/exposure_outputs.py"), ("ObservationOutputs", "pyxel/outputs/observation_outputs.py"),
+    ("CalibrationOutputs", "pyxel/outputs/calibration_outputs.py"),
+    ("ModelFunction", "pyxel/pipelines/model_function.py"), ("FitnessFunction", "pyxel/pipelines/model_function.py"),
+    ("DetectionPipeline", "pyxel/pipelines/pipeline.py"),
+    ("Geometry", "pyxel/detectors/geometry.py"), ("Characteristics", "pyxel/detectors/characteristics.py"),
+    ("APDCharacteristics", "pyxel/detectors/apd/apd_characteristics.py"), ("Environment", "pyxel/detectors/environment.py"),
+    ("WavelengthHandling", "pyxel/detectors/environment.py"),
+]
+
+
+def ctor_params(repo: Path, cname: str, rel: str):
+    """the names a document may write for an object of this class: parameters of __init__, or the fields of a dataclass"""
+    tree = parse(repo, rel)
+    cn = class_node(tree, cname)
+    inits = [n for n in cn.body if isinstance(n, ast.FunctionDef) and n.name == "__init__"]
+    if len(inits) == 1:
+        a = inits[0].args
+        if a.vararg or a.kwarg or a.posonlyargs:
+            fail(inits[0], f"{cname}.__init__: *args / **kwargs / positional-only parameters")
+        return [x.arg for x in a.args[1:]] + [x.arg for x in a.kwonlyargs]
+    if inits:
+        fail(cn, f"{cname}: several __init__")
+    if any(ast.unparse(d).split("(")[0] in ("dataclass", "dataclasses.dataclass") for d in cn.decorator_list):
+        return [st.target.id for st in cn.body if isinstance(st, ast.AnnAssign) and isinstance(st.target, ast.Name)]
+    fail(cn, f"{cname}: neither __init__ nor a dataclass")
+
+
+def extract_ctor_params(repo: Path):
+    return [(c, ctor_params(repo, c, rel)) for c, rel in REACHABLE]
+
+
 # ------------------------------------------------------------------------------------------ entry
 
 
@@ -568,10 +767,15 @@ def translate(repo: Path) -> str:
     out += "Definition src_checks : list presence_check := [\n" + ";\n".join(crow) + "\n].\n"
     out += f"Definition src_mode_dispatch : list string := [{'; '.join(gstr(k) for k in modes)}].\n"
     out += f"Definition src_detector_dispatch : list string := [{'; '.join(gstr(k) for k in dets)}].\n"
+    rparams, carried = extract_readout(repo)
+    out += f"Definition src_readout_params : list string := [{'; '.join(gstr(k) for k in rparams)}].\n"
+    out += f"Definition src_replace_carried : list string := [{'; '.join(gstr(k) for k in carried)}].\n"
+    rows = [f"  ({gstr(c)}, [{'; '.join(gstr(k) for k in ps)}])" for c, ps in extract_ctor_params(repo)]
+    out += "Definition src_ctor_params : list (string * list string) := [\n" + ";\n".join(rows) + "\n].\n"
     return out
 
 
-# the text for the unchanged tree (kept literal so that it never depends on the tree under test)
+# the text for the repaired tree (fix: commits of round 2; kept literal so that it never depends on the tree under test)
 FALLBACK = r'''(* GENERATED on every run from the current source tree by /verif/translator — do not edit *)
 From Coq Require Import QArith ZArith List String.
 From PyxelV Require Import Model.Config.
@@ -579,11 +783,11 @@ Import ListNotations.
 Open Scope Z_scope.
 Definition src_guards : guard_table := [
   ((CGeometry, "row"%string),
-    (Guard PAlways [RaiseIfAny [Atom OLe (Qmake (0) 1)]] false,
-     Guard PAlways [RaiseIfAny [Atom OLe (Qmake (0) 1)]] false));
+    (Guard PAlways [RaiseUnlessAll [Atom OGt (Qmake (0) 1)]] false,
+     Guard PAlways [RaiseUnlessAll [Atom OGt (Qmake (0) 1)]] false));
   ((CGeometry, "col"%string),
-    (Guard PAlways [RaiseIfAny [Atom OLe (Qmake (0) 1)]] false,
-     Guard PAlways [RaiseIfAny [Atom OLe (Qmake (0) 1)]] false));
+    (Guard PAlways [RaiseUnlessAll [Atom OGt (Qmake (0) 1)]] false,
+     Guard PAlways [RaiseUnlessAll [Atom OGt (Qmake (0) 1)]] false));
   ((CGeometry, "total_thickness"%string),
     (Guard PTruthy [RaiseUnlessAll [Atom OGe (Qmake (0) 1); Atom OLe (Qmake (10000) 1)]] false,
      Guard PAlways [RaiseUnlessAll [Atom OGe (Qmake (0) 1); Atom OLe (Qmake (10000) 1)]] false));
@@ -594,11 +798,11 @@ Definition src_guards : guard_table := [
     (Guard PTruthy [RaiseUnlessAll [Atom OGe (Qmake (0) 1); Atom OLe (Qmake (1000) 1)]] false,
      Guard PAlways [RaiseUnlessAll [Atom OGe (Qmake (0) 1); Atom OLe (Qmake (1000) 1)]] false));
   ((CGeometry, "pixel_scale"%string),
-    (Guard PAlways [] false,
+    (Guard PTruthy [RaiseUnlessAll [Atom OGe (Qmake (0) 1); Atom OLe (Qmake (1000) 1)]] false,
      Guard PAlways [RaiseUnlessAll [Atom OGe (Qmake (0) 1); Atom OLe (Qmake (1000) 1)]] false));
   ((CCharacteristics, "quantum_efficiency"%string),
     (Guard PNotNone [RaiseUnlessAll [Atom OGe (Qmake (0) 1); Atom OLe (Qmake (1) 1)]] false,
-     Guard PAlways [RaiseIfAny [Atom OLt (Qmake (0) 1); Atom OGt (Qmake (1) 1)]] false));
+     Guard PAlways [RaiseUnlessAll [Atom OGe (Qmake (0) 1); Atom OLe (Qmake (1) 1)]] false));
   ((CCharacteristics, "charge_to_volt_conversion"%string),
     (Guard PTruthy [RaiseUnlessAll [Atom OGe (Qmake (0) 1); Atom OLe (Qmake (100) 1)]] false,
      Guard PAlways [RaiseUnlessAll [Atom OGe (Qmake (0) 1); Atom OLe (Qmake (100) 1)]] false));
@@ -610,34 +814,34 @@ Definition src_guards : guard_table := [
      Guard PAlways [RaiseUnlessAll [Atom OGe (Qmake (0) 1); Atom OLe (Qmake (10000000) 1)]] false));
   ((CCharacteristics, "adc_bit_resolution"%string),
     (Guard PNotNone [RaiseUnlessAll [Atom OGe (Qmake (4) 1); Atom OLe (Qmake (64) 1)]] false,
-     Guard PAlways [] false));
+     Guard PAlways [RaiseUnlessAll [Atom OGe (Qmake (4) 1); Atom OLe (Qmake (64) 1)]] false));
   ((CCharacteristics, "adc_voltage_range"%string),
     (Guard PNotNone [RaiseUnlessLen 2] false,
-     Guard PAlways [] false));
+     Guard PAlways [RaiseUnlessLen 2] false));
   ((CEnvironment, "temperature"%string),
-    (Guard PIsNumber [RaiseUnlessAll [Atom OGt (Qmake (0) 1); Atom OLe (Qmake (1000) 1)]] false,
+    (Guard PNotNone [RaiseUnlessAll [Atom OGt (Qmake (0) 1); Atom OLe (Qmake (1000) 1)]] false,
      Guard PAlways [RaiseUnlessAll [Atom OGt (Qmake (0) 1); Atom OLe (Qmake (1000) 1)]] false));
   ((CEnvironment, "wavelength"%string),
-    (Guard PIsNumber [RaiseUnlessAll [Atom OGt (Qmake (0) 1)]] false,
-     Guard PIsNumber [RaiseIfAny [Atom OLe (Qmake (0) 1)]] true));
+    (Guard PNotNone [RaiseUnlessAll [Atom OGt (Qmake (0) 1)]] false,
+     Guard PIsNumber [RaiseUnlessAll [Atom OGt (Qmake (0) 1)]] true));
   ((CAPDCharacteristics, "roic_gain"%string),
     (Guard PAlways [] false,
      read_only));
   ((CAPDCharacteristics, "quantum_efficiency"%string),
     (Guard PTruthy [RaiseUnlessAll [Atom OGe (Qmake (0) 1); Atom OLe (Qmake (1) 1)]] false,
-     Guard PAlways [RaiseIfAny [Atom OLt (Qmake (0) 1); Atom OGt (Qmake (1) 1)]] false));
+     Guard PAlways [RaiseUnlessAll [Atom OGe (Qmake (0) 1); Atom OLe (Qmake (1) 1)]] false));
   ((CAPDCharacteristics, "full_well_capacity"%string),
     (Guard PTruthy [RaiseUnlessAll [Atom OGe (Qmake (0) 1); Atom OLe (Qmake (10000000) 1)]] false,
      Guard PAlways [RaiseUnlessAll [Atom OGe (Qmake (0) 1); Atom OLe (Qmake (10000000) 1)]] false));
   ((CAPDCharacteristics, "adc_bit_resolution"%string),
-    (Guard PTruthy [RaiseUnlessAll [Atom OGe (Qmake (4) 1); Atom OLe (Qmake (64) 1)]] false,
+    (Guard PNotNone [RaiseUnlessAll [Atom OGe (Qmake (4) 1); Atom OLe (Qmake (64) 1)]] false,
      Guard PAlways [RaiseUnlessAll [Atom OGe (Qmake (4) 1); Atom OLe (Qmake (64) 1)]] false));
   ((CAPDCharacteristics, "adc_voltage_range"%string),
-    (Guard PTruthy [RaiseUnlessLen 2] false,
-     Guard PAlways [] false));
+    (Guard PNotNone [RaiseUnlessLen 2] false,
+     Guard PAlways [RaiseUnlessLen 2] false));
   ((CAPDCharacteristics, "avalanche_gain"%string),
     (Guard PNotNone [RaiseUnlessAll [Atom OGe (Qmake (1) 1); Atom OLe (Qmake (1000) 1)]] false,
-     Guard PAlways [RaiseIfAny [Atom OLt (Qmake (1) 1); Atom OGt (Qmake (1000) 1)]] false));
+     Guard PAlways [RaiseUnlessAll [Atom OGe (Qmake (1) 1); Atom OLe (Qmake (1000) 1)]] false));
   ((CAPDCharacteristics, "pixel_reset_voltage"%string),
     (Guard PAlways [] false,
      Guard PAlways [] false));
@@ -653,4 +857,25 @@ Definition src_checks : list presence_check := [
 ].
 Definition src_mode_dispatch : list string := ["exposure"%string; "observation"%string; "calibration"%string].
 Definition src_detector_dispatch : list string := ["ccd_detector"%string; "cmos_detector"%string; "mkid_detector"%string; "apd_detector"%string].
+Definition src_readout_params : list string := ["times"%string; "times_from_file"%string; "start_time"%string; "non_destructive"%string].
+Definition src_replace_carried : list string := ["times"%string; "start_time"%string; "non_destructive"%string].
+Definition src_ctor_params : list (string * list string) := [
+  ("Exposure"%string, ["readout"%string; "outputs"%string; "result_type"%string; "pipeline_seed"%string; "working_directory"%string]);
+  ("Readout"%string, ["times"%string; "times_from_file"%string; "start_time"%string; "non_destructive"%string]);
+  ("Observation"%string, ["parameters"%string; "outputs"%string; "readout"%string; "mode"%string; "from_file"%string; "column_range"%string; "with_dask"%string; "result_type"%string; "pipeline_seed"%string; "working_directory"%string]);
+  ("ParameterValues"%string, ["key"%string; "values"%string; "boundaries"%string; "enabled"%string; "logarithmic"%string]);
+  ("Calibration"%string, ["target_data_path"%string; "fitness_function"%string; "algorithm"%string; "parameters"%string; "outputs"%string; "readout"%string; "mode"%string; "result_type"%string; "result_fit_range"%string; "result_input_arguments"%string; "target_fit_range"%string; "pygmo_seed"%string; "pipeline_seed"%string; "num_islands"%string; "num_evolutions"%string; "num_best_decisions"%string; "topology"%string; "type_islands"%string; "weights_from_file"%string; "weights"%string; "working_directory"%string]);
+  ("Algorithm"%string, ["type"%string; "generations"%string; "population_size"%string; "variant"%string; "variant_adptv"%string; "ftol"%string; "xtol"%string; "memory"%string; "cr"%string; "eta_c"%string; "m"%string; "param_m"%string; "param_s"%string; "crossover"%string; "mutation"%string; "selection"%string; "nlopt_solver"%string; "maxtime"%string; "maxeval"%string; "xtol_rel"%string; "xtol_abs"%string; "ftol_rel"%string; "ftol_abs"%string; "stopval"%string; "local_optimizer"%string; "replacement"%string; "nlopt_selection"%string]);
+  ("ExposureOutputs"%string, ["output_folder"%string; "custom_dir_name"%string; "save_data_to_file"%string; "save_exposure_data"%string]);
+  ("ObservationOutputs"%string, ["output_folder"%string; "custom_dir_name"%string; "save_data_to_file"%string; "save_observation_data"%string]);
+  ("CalibrationOutputs"%string, ["output_folder"%string; "custom_dir_name"%string; "save_data_to_file"%string; "save_calibration_data"%string]);
+  ("ModelFunction"%string, ["func"%string; "name"%string; "arguments"%string; "enabled"%string]);
+  ("FitnessFunction"%string, ["func"%string; "arguments"%string]);
+  ("DetectionPipeline"%string, ["scene_generation"%string; "photon_collection"%string; "phasing"%string; "charge_generation"%string; "charge_collection"%string; "charge_transfer"%string; "charge_measurement"%string; "signal_transfer"%string; "readout_electronics"%string; "data_processing"%string]);
+  ("Geometry"%string, ["row"%string; "col"%string; "total_thickness"%string; "pixel_vert_size"%string; "pixel_horz_size"%string; "pixel_scale"%string]);
+  ("Characteristics"%string, ["quantum_efficiency"%string; "charge_to_volt_conversion"%string; "pre_amplification"%string; "full_well_capacity"%string; "adc_bit_resolution"%string; "adc_voltage_range"%string]);
+  ("APDCharacteristics"%string, ["roic_gain"%string; "quantum_efficiency"%string; "full_well_capacity"%string; "adc_bit_resolution"%string; "adc_voltage_range"%string; "avalanche_gain"%string; "pixel_reset_voltage"%string; "common_voltage"%string]);
+  ("Environment"%string, ["temperature"%string; "wavelength"%string]);
+  ("WavelengthHandling"%string, ["cut_on"%string; "cut_off"%string; "resolution"%string])
+].
 '''
